@@ -15,6 +15,20 @@ RULE = ("sequences of 1-5 datasets of all four kinds with per-dataset Qmin/Qmax 
 def generate(rng, tier):
     n = 40 if tier == "quick" else 300
     cases = []
+    # a fixed sequence: Keen F(Q) dataset, then <b_tot^2> is reassigned, then a DCS(Q) dataset
+    cfg0 = {"mat": {"rho": 0.05, "bcoh": 2.5, "btot": 1.25}, "Qmin": None, "Qmax": None}
+
+    def plain(kind, x):
+        return {"x": x, "kind": kind, "style": "exact", "s_true": [1.0 + 0.3 * (-1) ** j for j in range(len(x))], "dy": [0.01] * len(x),
+                "Qmin": None, "Qmax": None, "Y": None, "X": None}
+    d_a = plain(2, [0.3, 0.4, 0.5, 0.6])
+    d_b = plain(3, [0.3, 0.45, 0.6, 0.75])
+    d_b["set_before"] = {"btot": 8.5}
+    SL.finish_dataset(d_a, cfg0["mat"])
+    SL.finish_dataset(d_b, dict(cfg0["mat"], btot=8.5))
+    cases.append({"cfg": cfg0, "datasets": [d_a, d_b],
+                  "desc": {"n_datasets": 2, "edge_on_shifted_point": False, "attrs_changed_between": True, "global_qmin": False,
+                           "global_qmax": False, "any_xoffset": False, "kinds": "23"}})
     for i in range(n):
         cfg = SL.gen_config(rng)
         k = rng.choice([1, 2, 3, rng.randint(1, 5)])
